@@ -157,7 +157,6 @@ func runC14(s *sim) {
 	cancelled := false
 	var cancelAt time.Duration
 	var handlers []*TopicEventHandler
-	var batch MessageBatch
 	nBatch := 0
 	topicH := func(k int64) (*Topic, error) { return n.topic(w.topicName(k)) }
 	var shutdown func()
@@ -277,6 +276,10 @@ func runC14(s *sim) {
 				if err != nil {
 					return err
 				}
+				// a batch of its own per call: two pending calls sharing one batch would race for its
+				// contents when they are woken together, and which of them publishes is not the
+				// simulator's choice
+				var batch MessageBatch
 				if err := t.AddToBatch(context.Background(), &batch, data); err != nil {
 					return err
 				}
